@@ -6,12 +6,14 @@ import itertools
 
 PROPS = ['C08']
 NAME = 'batch_relate_matching'
-BOUND = ('request id lists of length 0..3 over {None, 1, 2, "1"} (distinct non-null ids) x response id lists of length '
+BOUND = ('(thorough tier: lengths 0..4) request id lists of length 0..3 over {None, 1, 2, "1"} (distinct non-null ids) x response id lists of length '
          '0..3 over {None, 1, 2, "1", 99} (distinct non-null ids) x strict on/off x success / batch-level error '
          '(exhaustive)')
 
 
 def run():
+    import os
+    THOROUGH = os.environ.get('VERIF_TIER') == 'thorough'
     from pjrpc.client.client import BaseBatch
     from pjrpc.common import BatchRequest, BatchResponse, Request, Response
     from pjrpc.common.exceptions import IdentityError, JsonRpcError
@@ -28,11 +30,11 @@ def run():
 
     cases, violations = 0, []
     for strict in (True, False):
-        for nreq in range(0, 4):
+        for nreq in range(0, 5 if THOROUGH else 4):
             for rids in itertools.product([None, 1, 2, '1'], repeat=nreq):
                 if not distinct(rids):
                     continue
-                for nresp in range(0, 4):
+                for nresp in range(0, 5 if THOROUGH else 4):
                     for pids in itertools.product([None, 1, 2, '1', 99], repeat=nresp):
                         if not distinct(pids):
                             continue
